@@ -154,6 +154,26 @@ CHECKS = {
             {"check": "C10", "what": "interpolation and range histories", "quick": B(5000, 40), "thorough": B(250000, 500, 100)},
         ],
     },
+    "C07": {
+        "level": "exploration",
+        "rule": "sessions produce real calibrations (all eight types, 1-3 ports) on one vnacal_t; a catalogue task edits the global and "
+                "per-calibration property trees with the full descriptor grammar, sets precisions 1..40 and MAX, saves, restarts "
+                "(vnacal_free, ledger must be empty, only the simulated disk survives) and loads; names, indices, types, dimensions, "
+                "frequencies, z0, both property trees and the result of applying each calibration are compared with the state at save "
+                "time; non-trivial = a file holding at least one calibration was loaded and compared; distinct = plan fingerprint",
+        "assumptions": [
+            "error terms are compared through vnacal_apply(_m) on a probe device: bit-exact when both precisions are MAX, "
+            "100*10^(1-dprecision) + 10*10^(1-fprecision) otherwise; not compared below 5 digits",
+            "a frequency precision that merges neighbouring calibration frequencies is not required to round-trip",
+            "the legacy E12-only 2.x layout is not generated (the #VNACAL 3.0 first-line alias is)",
+        ],
+        "expected_probes": ["vsave_ok", "vload_ok", "vload_apply_exact", "vload_apply_close", "vnacal3_alias", "vnacal_property_tree_compared"],
+        "subchecks": [
+            {"check": "C07", "what": "clean configuration", "quick": B(5000, 50), "thorough": B(250000, 600, 100)},
+            {"check": "C07.cal.faulty", "what": "allocation (libvna and libyaml), write, close, open and read faults in save and load",
+             "quick": B(2500, 25), "thorough": B(100000, 250, 100)},
+        ],
+    },
     "C14": {
         "level": "exploration",
         "rule": "trees built by seeded edit histories over a hard key/value alphabet, exported to the simulated disk, everything "
@@ -166,7 +186,10 @@ CHECKS = {
         "expected_probes": ["export_ok", "import_ok"],
         "subchecks": [
             {"check": "C14", "what": "build / export / restart / import cycles, clean configuration",
-             "quick": B(40000, 40), "thorough": B(1500000, 540, 500)},
+             "quick": B(40000, 30), "thorough": B(1500000, 540, 500)},
+            {"check": "C14.doc.faulty", "what": "allocation (libvna, libyaml), write, close and read faults inside export and import; "
+             "a call that still reports success must have the fault-free effect, a failed one is repeated",
+             "quick": B(20000, 20), "thorough": B(600000, 250, 500)},
         ],
     },
 }
@@ -184,7 +207,6 @@ NOT_APPLICABLE = {
 # properties the design claims but whose check is not built yet (listed as not claimed until then)
 PLANNED = {
     "C03": "check under construction (chaos engine, DESIGN.md section 5); not claimed until it exists",
-    "C07": "check under construction (store engine); not claimed until it exists",
     "C09": "check under construction (corrupt engine); not claimed until it exists",
     "C11": "check under construction (failure-seeking workloads); not claimed until it exists",
     "C12": "check under construction (allocation-failure enumeration driver); not claimed until it exists",
@@ -250,6 +272,13 @@ MANIFEST_TEXT = {
         "design_ref": "DESIGN.md section 5 C10",
         "level_note": "clauses about noise / sigma splines are not observable through the API and not decided",
         "technique": "deterministic simulation: history-dependence probes with fresh twins, range-violation injection",
+    },
+    "C07": {
+        "level_text": "seeded exploration of save / restart / load histories of whole calibration catalogues on a simulated disk, with "
+                      "and without injected faults; evidence, not proof",
+        "design_ref": "DESIGN.md section 5 C07",
+        "level_note": "trusts VnaWorld (to obtain real calibrations), DocModel and the apply-based comparison of error terms",
+        "technique": "deterministic simulation: simulated disk + restart + stream/allocation faults, model equality after reload",
     },
     "C14": {
         "level_text": "seeded exploration of build/export/restart/import cycles over a hard key/value alphabet on a simulated disk with "
